@@ -90,11 +90,14 @@ CLAIMED = {
         "Coq theorems by a compositional calculus on the API monad (readonly / total / atomic): for create_block/section/group/"
         "data_array/tag/source(block) and create_multi_tag, link-list append/remove, container deletion, attribute and single-link "
         "setters a refused call leaves the store EQUAL to what it was; for nested create_source/create_section/create_property equal "
-        "up to one empty, unreadable container group; lookups never write. create_feature is refuted with a witness (known "
-        "finding). Tie: histories with a malformed-argument stream and retries; trace predicate walk-digest-before = after for "
+        "up to one empty, unreadable container group; lookups never write; create_feature and create_multi_tag validate before "
+        "they create. Tie: histories with a malformed-argument stream and retries; trace predicate walk-digest-before = after for "
         "every refused call of the implementation. Dimension calls (ticks, link_data_array, labels, remove_link): every refused "
         "call returns the state it was given, with the exact refusal conditions (Pure/DimLink.v), tied by dimension histories in "
-        "which all stored fields and reported values are compared before/after every refusal.",
+        "which all stored fields and reported values are compared before/after every refusal. EXERCISED, NOT MODELLED (test level, "
+        "labelled as such): a sweep of ~95 public creating/mutating calls x classes of invalid argument on a fixed file, with the "
+        "complete HDF5 content (objects, link names in order, attributes incl. timestamps, datasets) compared before/after and the "
+        "rejected name retried with a valid argument.",
         "Trusted: see evidence.trusted_base. Refusals of data writes are covered by C01 (arrays), C10 (values), C16 (data frames); "
         "DataFrame dimension links are not modelled.",
         "DESIGN.md section 5 C12", TECH),
